@@ -399,6 +399,35 @@ def all_kinds():
 
 
 # ------------------------------------------------------------------------------
+# repeated decoding of one string
+#
+class Stateful(object):
+    """callable whose state travels in the envelope; it reports state, arguments and keywords"""
+    def __init__(self, state):
+        self.state = state
+
+    def __call__(self, *a, **k):
+        return [self.state, [copy.deepcopy(x) for x in a], sorted((kk, repr(v)) for kk, v in k.items())]
+
+
+def mpi_kw(msg, comm=None):
+    return '%s:%s' % (msg, comm.size)
+
+
+def mpi_arg(comm, msg):
+    return '%s:%s' % (msg, comm.size)
+
+
+def plain_kw(msg, n=1):
+    return '%s:%s' % (msg, n)
+
+
+class FakeComm(object):
+    size = 4
+    rank = 0
+
+
+# ------------------------------------------------------------------------------
 class C19(Prop):
     id = 'C19'
     module = 'c19'
@@ -409,7 +438,8 @@ class C19(Prop):
     translators = ['descr']
     header = 'From RP Require Import Descr.Types Descr.Model Descr.Oracle Gen.Descr Gen.PDescr.'
     clauses = ['idempotent', 'alias_preserved', 'mode_enforced', 'untouched_preserved', 'dict_roundtrip',
-               'twin_same', 'slots_preserved', 'envelope_roundtrip', 'sequence_independent']
+               'twin_same', 'slots_preserved', 'envelope_roundtrip', 'sequence_independent',
+               'decode_independent_of_earlier_results']
     corr_name = ('Descr.Model(construct/as_dict/verify over Gen.Descr.td_table, pd_verify over pd_table; '
                  'slots_to_new/slots_to_old/slot_ctor; transport) vs TaskDescription/PilotDescription/ru.TypedDict, convert_slots_to_new/_old/Slot, PythonTask')
     rule = ('corpus; for every alias block a family of descriptions giving the deprecated name alone (several values, '
@@ -695,6 +725,62 @@ class C19(Prop):
             ops += [['append', 1, k, dk or '', 'late']]
         return {'kind': 'dseq', 'cls': cls, 'template': template, 'ops': ops}
 
+    DEC_ARGS = [['a', 'b'], 1, {'k': 1}]
+    DEC_KW = {'extra': {'k': 1}, 'comm': None, 'items': ['x']}
+
+    def _decseq_systematic(self):
+        base = {'kind': 'decseq', 'state': 3, 'args': self.DEC_ARGS, 'kwargs': self.DEC_KW}
+        muts = [['arg_nested', 0, 'done'], ['args_append', 'tail'], ['kw_set', 'comm', 7], ['kw_set', 'new', 'v'],
+                ['kw_del', 'comm'], ['kw_nested', 'extra', 'seen', 1], ['kw_nested', 'items', '', 'y'],
+                ['func_state', 9], ['arg_nested', 2, 'z']]
+        for via in ('class', 'decor'):
+            for m in muts:
+                yield dict(base, via=via, ops=[['decode'], ['mut', 0] + m, ['decode']])
+            yield dict(base, via=via, ops=[['decode'], ['mut', 0] + muts[0], ['decode'], ['mut', 1] + muts[4],
+                                           ['mut', 0] + muts[5], ['decode']])
+
+    def _decseq_case(self, rng):
+        atoms = [0, 1, 'a', 'x y', None, True, 2.5]
+        args = []
+        for _ in range(rng.randint(1, 3)):
+            r = rng.random()
+            args.append([rng.choice(atoms) for _ in range(rng.randint(0, 2))] if r < 0.5 else
+                        {k: rng.choice(atoms) for k in rng.sample(['k', 'm'], rng.randint(0, 2))} if r < 0.7 else
+                        rng.choice(atoms))
+        kw = {}
+        for k in rng.sample(['extra', 'comm', 'items', 'n'], rng.randint(1, 3)):
+            kw[k] = {'k': 1} if k == 'extra' else None if k == 'comm' else ['x'] if k == 'items' else rng.choice(atoms)
+        ops, ndec = [['decode']], 1
+        for _ in range(rng.randint(1, 4)):
+            i = rng.randrange(ndec)
+            kind = rng.choice(['arg_nested', 'args_append', 'kw_set', 'kw_del', 'kw_nested', 'func_state'])
+            if kind == 'arg_nested':
+                js = [j for j, a in enumerate(args) if isinstance(a, (list, dict))]
+                if not js:
+                    continue
+                m = ['arg_nested', rng.choice(js), rng.choice(['done', 5])]
+            elif kind == 'args_append':
+                m = ['args_append', rng.choice(atoms)]
+            elif kind == 'kw_set':
+                m = ['kw_set', rng.choice(list(kw) + ['new']), rng.choice([7, 'v', None])]
+            elif kind == 'kw_del':
+                m = ['kw_del', rng.choice(list(kw))]
+            elif kind == 'kw_nested':
+                ks = [k for k, v in kw.items() if isinstance(v, (list, dict))]
+                if not ks:
+                    continue
+                m = ['kw_nested', rng.choice(ks), rng.choice(['seen', 'k']), rng.choice([1, 'y'])]
+            else:
+                m = ['func_state', rng.randint(4, 9)]
+            ops.append(['mut', i] + m)
+            if rng.random() < 0.7:
+                ops.append(['decode'])
+                ndec += 1
+        if ops[-1][0] != 'decode':
+            ops.append(['decode'])
+        return {'kind': 'decseq', 'state': rng.randint(0, 3), 'via': rng.choice(['class', 'decor']),
+                'args': args, 'kwargs': kw, 'ops': ops}
+
     def _envseq_case(self, rng, name=None, via=None, nsteps=None):
         pool = [0, 1, 2, -3, 'a', 'x y', None, True, 2.5]
         n = nsteps or rng.randint(1, 3)
@@ -752,6 +838,16 @@ class C19(Prop):
                    'args': [rng.choice(pool) for _ in range(rng.randint(0, 3))],
                    'kwargs': None if rng.random() < 0.3 else
                    {k: rng.choice(pool) for k in rng.sample(['p', 'q', 'n'], rng.randint(0, 2))}}
+        # one string decoded k >= 2 times, the earlier results changed in place in between
+        for spec in self._decseq_systematic():
+            yield spec
+        for _ in range(40 if tier == 'quick' else 1500):
+            yield self._decseq_case(rng)
+        # the real raptor worker dispatching the same function string several times
+        for how in ('kw', 'arg', 'plain'):
+            for via in ('class', 'decor'):
+                yield {'kind': 'dispatch', 'how': how, 'via': via, 'runs': 2}
+        yield {'kind': 'dispatch', 'how': 'kw', 'via': 'decor', 'runs': 3}
         # Slot(): fresh ones after earlier ones had their default lists mutated in place
         for n in (2, 3):
             yield {'kind': 'slotdefault', 'n': n}
@@ -1171,6 +1267,86 @@ class C19(Prop):
             raise RuntimeError(out['err'])
         return out['ok']
 
+    def _run_decseq(self, case):
+        """Encode once; then get_func_attr on the SAME string again and again, the results of earlier
+        decodes being changed in place in between.  Every result is looked at right when it is returned."""
+        rp = self.rp
+        f = Stateful(case['state'])
+        args, kw = copy.deepcopy(case['args']), copy.deepcopy(case['kwargs'])
+        want = f(*args, **kw)
+        w = rp.PythonTask(f, tuple(args), kw) if case['via'] == 'class' else rp.pythontask(f)(*args, **kw)
+        args.append('SPOILED')                      # the encoder's own objects are out of the game
+        kw.clear()
+        res, out = [], []
+        for op in case['ops']:
+            if op[0] == 'decode':
+                g, a, k = rp.PythonTask.get_func_attr(w)
+                res.append((g, a, k))
+                same = (g(*copy.deepcopy(a), **copy.deepcopy(k)) == want)
+                out.append({'state': g.state, 'args': [tag_val(x) for x in a],
+                            'kwargs': [[kk, tag_val(v)] for kk, v in k.items()], 'same': bool(same)})
+                continue
+            g, a, k = res[op[1]]
+            m = op[2:]
+            if m[0] == 'args_append':
+                a.append(m[1])
+            elif m[0] == 'arg_nested':
+                if m[1] < len(a):
+                    t = a[m[1]]             # a scalar there: nothing to change (the model says the same)
+                    if isinstance(t, list):
+                        t.append(m[2])
+                    elif isinstance(t, dict):
+                        t[''] = m[2]
+            elif m[0] == 'kw_set':
+                k[m[1]] = m[2]
+            elif m[0] == 'kw_del':
+                k.pop(m[1], None)
+            elif m[0] == 'kw_nested':
+                if m[1] in k:
+                    t = k[m[1]]
+                    if isinstance(t, list):
+                        t.append(m[3])
+                    elif isinstance(t, dict):
+                        t[m[2]] = m[3]
+            elif m[0] == 'func_state':
+                g.state = m[1]
+            else:
+                raise RuntimeError(m[0])
+        return {'decodes': out}
+
+    def _run_dispatch(self, case):
+        """raptor.worker.Worker._dispatch_func (the real method; __init__ mocked, log/prof mocks) on k tasks
+        that carry the same encoded function; for MPI tasks the worker injects the communicator."""
+        import asyncio
+        from unittest import mock
+        from radical.pilot.raptor.worker import Worker
+        rp = self.rp
+        with mock.patch.object(Worker, '__init__', return_value=None):
+            worker = Worker()
+        worker._log, worker._prof = mock.Mock(), mock.Mock()
+        how = case['how']
+        if how == 'kw':
+            fn, a, k, comm = mpi_kw, ('ranks',), {'comm': None}, True
+            expected = mpi_kw('ranks', comm=FakeComm())
+        elif how == 'arg':
+            fn, a, k, comm = mpi_arg, (None, 'ranks'), {}, True
+            expected = mpi_arg(FakeComm(), 'ranks')
+        else:
+            fn, a, k, comm = plain_kw, ('ranks',), {'n': 2}, False
+            expected = plain_kw('ranks', n=2)
+        w = rp.PythonTask(fn, a, k) if case['via'] == 'class' else rp.pythontask(fn)(*a, **k)
+        out = []
+        for i in range(case['runs']):
+            task = {'uid': 'task.%04d' % i, 'description': {'function': w, 'args': [], 'kwargs': {}, 'environment': {}}}
+            if comm:
+                task['mpi_comm'] = FakeComm()
+            try:
+                o, e, ret, val, exc = asyncio.run(worker._dispatch_func(task))
+                out.append({'ok': bool(ret == 0 and val == expected), 'ret': ret, 'val': repr(val), 'exc': str(exc[0])[:80]})
+            except Exception as e:
+                out.append({'ok': False, 'raised': '%s: %s' % (type(e).__name__, str(e)[:80])})
+        return {'runs': out, 'expected': repr(expected)}
+
     def _run_slotdefault(self, case):
         from radical.pilot.resource_config import Slot, RO
         out = []
@@ -1182,6 +1358,10 @@ class C19(Prop):
         return {'fresh': out}
 
     def _run_case(self, case):
+        if case['kind'] == 'decseq':
+            return self._run_decseq(case)
+        if case['kind'] == 'dispatch':
+            return self._run_dispatch(case)
         if case['kind'] == 'slotdefault':
             return self._run_slotdefault(case)
         if case['kind'] == 'dseq':
@@ -1260,6 +1440,14 @@ class C19(Prop):
             return '(c19_slots_row %s %s %s %s %s)' % (
                 L.lst([self.OPS[o] for o in case['ops']]), L.lst([self._coq_slot(s) for s in case['slots']]),
                 L.lst(st), L.lst([self._coq_slot(s) for s in obs['input_after']]), L.boolean(obs['rerun_same']))
+        if case['kind'] == 'decseq':
+            x = self._coq_dres(case['state'], [tag_val(a) for a in case['args']],
+                               [[k, tag_val(v)] for k, v in case['kwargs'].items()])
+            ob = L.lst(['(%s, %s)' % (self._coq_dres(o['state'], o['args'], o['kwargs']), L.boolean(o['same']))
+                        for o in obs['decodes']])
+            return '(c19_decseq_row %s %s %s)' % (x, self._coq_rops(case), ob)
+        if case['kind'] == 'dispatch':
+            return '(c19_dispatch_row %s)' % L.lst([L.boolean(r['ok']) for r in obs['runs']])
         if case['kind'] == 'slotdefault':
             return '(c19_slotdefault_row %s)' % L.lst([self._coq_slot(x) for x in obs['fresh']])
         if case['kind'] == 'dseq':
@@ -1294,6 +1482,33 @@ class C19(Prop):
                                         L.boolean(obs['same'] and obs['callable']))
         return '(c19_env_row %s %s %s %s)' % (L.boolean(callable_), args, self._coq_kw(kw), o)
 
+    @staticmethod
+    def _coq_dres(state, args_tagged, kw_tagged):
+        return '(mkDres %s %s %s)' % (L.Z(state), L.lst([coq_val(a) for a in args_tagged]),
+                                      L.lst([L.pair(L.string(k), coq_val(v)) for k, v in kw_tagged]))
+
+    def _coq_rops(self, case):
+        out = []
+        for op in case['ops']:
+            if op[0] == 'decode':
+                out.append('RDecode')
+                continue
+            m = op[2:]
+            if m[0] == 'args_append':
+                mm = '(MArgsAppend %s)' % coq_val(tag_val(m[1]))
+            elif m[0] == 'arg_nested':
+                mm = '(MArgNested %s %s)' % (L.nat(m[1]), coq_atom(tag_atom(m[2])))
+            elif m[0] == 'kw_set':
+                mm = '(MKwSet %s %s)' % (L.string(m[1]), coq_val(tag_val(m[2])))
+            elif m[0] == 'kw_del':
+                mm = '(MKwDel %s)' % L.string(m[1])
+            elif m[0] == 'kw_nested':
+                mm = '(MKwNested %s %s %s)' % (L.string(m[1]), L.string(m[2]), coq_atom(tag_atom(m[3])))
+            else:
+                mm = '(MFuncState %s)' % L.Z(m[1])
+            out.append('(RMutate %s %s)' % (L.nat(op[1]), mm))
+        return L.lst(out)
+
     def _coq_dops(self, case):
         out = []
         for op in case['ops']:
@@ -1327,6 +1542,12 @@ class C19(Prop):
         return L.lst(out)
 
     def model_show(self, case):
+        if case['kind'] == 'decseq':
+            x = self._coq_dres(case['state'], [tag_val(a) for a in case['args']],
+                               [[k, tag_val(v)] for k, v in case['kwargs'].items()])
+            return 'snd (run_fresh %s %s [])' % (x, self._coq_rops(case))
+        if case['kind'] == 'dispatch':
+            return None
         if case['kind'] == 'slotdefault':
             return 'default_slot'
         if case['kind'] == 'dseq':
@@ -1363,6 +1584,8 @@ class C19(Prop):
 
     # ------------------------------------------------------------------ meta
     def nontrivial(self, case, obs):
+        if case['kind'] in ('decseq', 'dispatch'):
+            return True
         if case['kind'] == 'slotdefault':
             return True
         if case['kind'] == 'dseq':
@@ -1378,6 +1601,18 @@ class C19(Prop):
         return callable(FUNCS[case['func']])
 
     def signature(self, case, obs, clause):
+        if case['kind'] == 'decseq':
+            want = {'state': case['state'], 'args': [tag_val(a) for a in case['args']],
+                    'kwargs': [[k, tag_val(v)] for k, v in case['kwargs'].items()]}
+            part = 'result-of-call'
+            for o in obs['decodes']:
+                bad = [p for p in ('state', 'args', 'kwargs') if o[p] != want[p]]
+                if bad:
+                    part = {'state': 'callable', 'args': 'args', 'kwargs': 'kwargs'}[bad[0]]
+                    break
+            return '%s:PythonTask.get_func_attr:later-decode-differs-in-%s' % (clause, part)
+        if case['kind'] == 'dispatch':
+            return '%s:Worker._dispatch_func:%s' % (clause, case['how'])
         if case['kind'] == 'slotdefault':
             return '%s:Slot:class-default-mutated' % clause
         if case['kind'] == 'dseq':
@@ -1480,6 +1715,29 @@ class C19(Prop):
         return [i for i, _ in data]
 
     def shrink(self, case):
+        if case['kind'] == 'dispatch':
+            if case['runs'] > 2:
+                yield dict(case, runs=case['runs'] - 1)
+            return
+        if case['kind'] == 'decseq':
+            ops = case['ops']
+            for i, op in enumerate(ops):
+                if i == 0:
+                    continue
+                cand = ops[:i] + ops[i + 1:]
+                ndec, ok = 0, True
+                for o in cand:                      # mutations only of results that exist
+                    if o[0] == 'decode':
+                        ndec += 1
+                    elif o[1] >= ndec:
+                        ok = False
+                if ok and op[0] == 'decode':
+                    # dropping a decode renumbers the later results: only drop the last one
+                    ok = not any(o[0] == 'mut' and o[1] >= sum(1 for q in ops[:i] if q[0] == 'decode')
+                                 for o in ops[i + 1:])
+                if ok and cand[-1][0] == 'decode':
+                    yield dict(case, ops=cand)
+            return
         if case['kind'] == 'slotdefault':
             if case['n'] > 2:
                 yield dict(case, n=case['n'] - 1)
@@ -1575,7 +1833,10 @@ class C19(Prop):
             c = r['case']
             kinds[c['kind']] = kinds.get(c['kind'], 0) + 1
             o = r['obs'] or {}
-            if c['kind'] == 'slotdefault':
+            if c['kind'] in ('decseq', 'dispatch'):
+                k = '%s:%s' % (c['kind'], c['via'])
+                ops[k] = ops.get(k, 0) + 1
+            elif c['kind'] == 'slotdefault':
                 ops['slotdefault'] = ops.get('slotdefault', 0) + 1
             elif c['kind'] == 'dseq':
                 k = 'dseq:%s:%s' % (c['cls'], c.get('template'))
